@@ -129,6 +129,28 @@ def problem_model(prog, rep=None) -> ProblemModel:
             return [(t.attr, s.value) for t in s.targets]
         return None
 
+    def setattr_resets(s):
+        """`setattr(self, "a", <empty>)`, or `for n in <module-level tuple of names>: setattr(self, n, <empty>)`."""
+        if isinstance(s, ast.Expr) and isinstance(s.value, ast.Call) and dotted(s.value.func) == "setattr" and len(s.value.args) == 3 and dotted(s.value.args[0]) == "self" \
+                and isinstance(s.value.args[1], ast.Constant) and isinstance(s.value.args[1].value, str) and empty_value(s.value.args[2]):
+            return [(s.value.args[1].value, s.value.args[2])]
+        if isinstance(s, ast.For) and isinstance(s.target, ast.Name) and not s.orelse and len(s.body) == 1:
+            b = s.body[0]
+            if isinstance(b, ast.Expr) and isinstance(b.value, ast.Call) and dotted(b.value.func) == "setattr" and len(b.value.args) == 3 and dotted(b.value.args[0]) == "self" \
+                    and isinstance(b.value.args[1], ast.Name) and b.value.args[1].id == s.target.id and empty_value(b.value.args[2]):
+                names = None
+                it = s.iter
+                if isinstance(it, (ast.Tuple, ast.List)) and all(isinstance(e, ast.Constant) and isinstance(e.value, str) for e in it.elts):
+                    names = [e.value for e in it.elts]
+                elif isinstance(it, ast.Name):
+                    for st in P.module.tree.body:
+                        tg = st.targets[0] if isinstance(st, ast.Assign) and len(st.targets) == 1 else st.target if isinstance(st, ast.AnnAssign) else None
+                        if isinstance(tg, ast.Name) and tg.id == it.id and isinstance(getattr(st, "value", None), (ast.Tuple, ast.List)) and all(isinstance(e, ast.Constant) and isinstance(e.value, str) for e in st.value.elts):
+                            names = [e.value for e in st.value.elts]
+                if names:
+                    return [(nm, b.value.args[2]) for nm in names]
+        return None
+
     def bookkeeping(s):
         return isinstance(s, ast.Pass) or (isinstance(s, ast.Expr) and isinstance(s.value, ast.Call)) or \
             (isinstance(s, ast.AugAssign) and isinstance(s.target, ast.Attribute) and dotted(s.target.value) == "self")
@@ -138,6 +160,8 @@ def problem_model(prog, rep=None) -> ProblemModel:
         un, co = [], []
         for s in stmts:
             r = reset_targets(s)
+            if r is None:
+                r = setattr_resets(s)
             if r is not None:
                 (co if cond else un).extend(r)
             elif isinstance(s, ast.If):
@@ -163,6 +187,9 @@ def problem_model(prog, rep=None) -> ProblemModel:
             invalidators.append((m, un, co))
     if len(invalidators) > 1:
         raise AnalysisError("more than one invalidator-shaped method in Problem")
+    if not invalidators:
+        # not finding one says "the idiom is not recognised", not "there is none": every rule that needs it is undecided
+        raise AnalysisError("no invalidator-shaped method found in Problem (a method resetting >= 2 cache attributes to None): idiom not recognised")
     inval = invalidators[0][0] if invalidators else None
     reset = {a for a, _v in invalidators[0][1]} if invalidators else set()
     cond_reset = ({a for a, _v in invalidators[0][2]} - reset) if invalidators else set()
@@ -316,27 +343,46 @@ def cache_inplace_mutations(prog, pm):
                             held[(tg.id, k.value)] = cached_part(v)
             if isinstance(n, ast.Assign) and isinstance(n.targets[0], ast.Subscript) and isinstance(n.targets[0].value, ast.Name) and isinstance(n.targets[0].slice, ast.Constant) and cached_part(n.value):
                 held[(n.targets[0].value.id, n.targets[0].slice.value)] = cached_part(n.value)
+        def aliases_cache(site, name):
+            """May local `name` still denote (part of) the cached object at `site`?  False when every definition that can
+            reach the site makes a fresh object (a copy, a negation, an arithmetic result, a constructor call)."""
+            from ..astutil import reaching_values
+
+            def fresh(v):
+                if v == "?":
+                    return False
+                if isinstance(v, (ast.BinOp, ast.UnaryOp, ast.List, ast.Dict, ast.ListComp, ast.DictComp, ast.Tuple, ast.Constant)):
+                    return True
+                if isinstance(v, ast.Call):
+                    if isinstance(v.func, ast.Attribute) and v.func.attr in ("copy", "astype", "tolist", "flatten"):
+                        return True
+                    d = dotted(v.func) or ""
+                    if d in ("np.array", "np.copy", "np.zeros", "np.ones", "np.empty", "np.full", "np.zeros_like", "np.ones_like", "np.negative", "np.multiply", "np.add", "np.subtract", "list", "dict", "copy.copy", "copy.deepcopy") and not any(k.arg == "out" for k in v.keywords):
+                        return True
+                return False
+            return not all(fresh(v) for v in reaching_values(site, name))
+
         for n in walk_local(fi.node, include_self=False):
             if isinstance(n, ast.AugAssign) and isinstance(n.target, ast.Subscript) and isinstance(n.target.value, ast.Name) and isinstance(n.target.slice, ast.Constant) and (n.target.value.id, n.target.slice.value) in held:
                 out.append((fi, n, f"`{src(n)[:50]}` modifies {held[(n.target.value.id, n.target.slice.value)]} (part of the cached object, held in a local dict) in place"))
             if isinstance(n, ast.AugAssign):
                 t = n.target
                 base = t.value if isinstance(t, (ast.Subscript, ast.Attribute)) else t
-                if isinstance(t, ast.Name) and t.id in level1:
+                if isinstance(t, ast.Name) and t.id in level1 and aliases_cache(n, t.id):
                     out.append((fi, n, f"`{src(n)[:50]}` modifies {level1[t.id]} (part of the cached object) in place"))
-                elif isinstance(base, ast.Name) and base.id in (set(level1) | level0) and not isinstance(t, ast.Name):
+                elif isinstance(base, ast.Name) and base.id in (set(level1) | level0) and not isinstance(t, ast.Name) and aliases_cache(n, base.id):
                     out.append((fi, n, f"`{src(n)[:50]}` modifies the cached object in place"))
             if isinstance(n, ast.Assign):
                 for t in n.targets:
-                    if isinstance(t, ast.Attribute) and isinstance(t.value, ast.Name) and t.value.id in level0:
+                    if isinstance(t, ast.Attribute) and isinstance(t.value, ast.Name) and t.value.id in level0 and aliases_cache(n, t.value.id):
                         out.append((fi, n, f"`{src(n)[:50]}` overwrites a field of the cached object"))
-                    if isinstance(t, ast.Subscript) and isinstance(t.value, ast.Name) and t.value.id in level1:
+                    if isinstance(t, ast.Subscript) and isinstance(t.value, ast.Name) and t.value.id in level1 and aliases_cache(n, t.value.id):
                         out.append((fi, n, f"`{src(n)[:50]}` writes into {level1[t.value.id]} (part of the cached object)"))
-            if isinstance(n, ast.Call) and isinstance(n.func, ast.Attribute) and n.func.attr in MUTATING_METHODS and isinstance(n.func.value, ast.Name) and n.func.value.id in level1:
+            if isinstance(n, ast.Call) and isinstance(n.func, ast.Attribute) and n.func.attr in MUTATING_METHODS and isinstance(n.func.value, ast.Name) and n.func.value.id in level1 and aliases_cache(n, n.func.value.id):
                 out.append((fi, n, f"`{src(n)[:50]}` mutates {level1[n.func.value.id]} (part of the cached object)"))
             if isinstance(n, ast.Call) and dotted(n.func) in ("np.negative", "np.multiply", "np.add") and any(k.arg == "out" for k in n.keywords):
                 outk = [k.value for k in n.keywords if k.arg == "out"][0]
-                if isinstance(outk, ast.Name) and outk.id in level1:
+                if isinstance(outk, ast.Name) and outk.id in level1 and aliases_cache(n, outk.id):
                     out.append((fi, n, f"`{src(n)[:50]}` writes into {level1[outk.id]} in place"))
     return out
 
@@ -403,6 +449,23 @@ def constructor_fields(prog, cls_name, call):
     for k in call.keywords:
         if k.arg:
             out[k.arg] = k.value
+        else:
+            # **fields with `fields = {"c": c, ...}` built once in the same function
+            d = k.value
+            if isinstance(d, ast.Name):
+                from ..astutil import enclosing_function
+                fn = enclosing_function(call)
+                vals = [v for v in local_assignments(fn).get(d.id, []) if isinstance(v, ast.AST)] if fn is not None else []
+                d = vals[0] if len(vals) == 1 else d
+            if isinstance(d, ast.Dict) and all(isinstance(kk, ast.Constant) for kk in d.keys):
+                for kk, vv in zip(d.keys, d.values):
+                    out[kk.value] = vv
+            elif isinstance(d, ast.Call) and dotted(d.func) == "dict" and not d.args:
+                for kw in d.keywords:
+                    if kw.arg:
+                        out[kw.arg] = kw.value
+            else:
+                out["**"] = k.value        # opaque expansion: callers must treat missing fields as unknown
     return out
 
 
